@@ -68,7 +68,8 @@ func (s *Snapshot) Diff(n ast.Node, cl Changelog) *Snapshot {
 			Pos: s.value.Pos(),
 			End: s.value.End(),
 		},
-		cl: cl,
+		cl:      cl,
+		compare: make(comparisons),
 	}
 
 	v := snapshot(reflect.ValueOf(n).Convert(s.value.Type()), nil)
@@ -83,7 +84,18 @@ type changeFinder struct {
 	Region
 
 	cl Changelog
+
+	// Results of the comparisons made so far.
+	compare comparisons
 }
+
+// comparisons remembers how similar two subtrees are. Finding the changes in
+// a list compares every candidate pair of items, which compares the lists
+// inside them, and so on; the walk then descends into the pairs it settled
+// on and compares the lists inside those once more. Without remembering the
+// results the cost is multiplied at every level of nesting: a rewrite inside
+// a dozen nested blocks took minutes.
+type comparisons map[[2]*value]diff.Result
 
 func (f changeFinder) unchanged(from, to *value) {
 	to.Comments = from.Comments
@@ -267,7 +279,7 @@ func (f changeFinder) walkSlice(from, to *value) bool {
 	}
 
 	es := diff.Difference(from.Len(), to.Len(), func(i, j int) diff.Result {
-		return compareNodes(from.Children[i], to.Children[j])
+		return f.compare.nodes(from.Children[i], to.Children[j])
 	})
 
 	regions := make([]Region, from.Len())
@@ -338,9 +350,23 @@ func (f changeFinder) walkSlice(from, to *value) bool {
 	return equal
 }
 
-type nodeComparer struct{ diff.Result }
+type nodeComparer struct {
+	diff.Result
 
-func compareNodes(from, to *value) diff.Result {
+	compare comparisons
+}
+
+func (cs comparisons) nodes(from, to *value) diff.Result {
+	key := [2]*value{from, to}
+	if r, ok := cs[key]; ok {
+		return r
+	}
+	r := cs.compareNodes(from, to)
+	cs[key] = r
+	return r
+}
+
+func (cs comparisons) compareNodes(from, to *value) diff.Result {
 	// An import declaration and a type, var or const declaration have most
 	// of their fields in common, but one is never a modification of the
 	// other: treating them as similar pairs the declaration that follows a
@@ -352,7 +378,7 @@ func compareNodes(from, to *value) diff.Result {
 		}
 	}
 
-	var c nodeComparer
+	c := nodeComparer{compare: cs}
 	c.Walk(from, to)
 	return c.Result
 }
@@ -415,7 +441,7 @@ func (c *nodeComparer) Walk(from, to *value) {
 		}
 
 		es := diff.Difference(from.Len(), to.Len(), func(i, j int) diff.Result {
-			result := compareNodes(from.Children[i], to.Children[j])
+			result := c.compare.nodes(from.Children[i], to.Children[j])
 			results[i][j] = result
 			return result
 		})
